@@ -40,8 +40,10 @@ TrAccept   == /\ IsEvent("Accept")
               /\ parts' = Append(parts, [cost |-> Ev.cost, prior |-> Ev.prior, tol |-> tol, gen |-> gen])
               /\ trials' = trials
               /\ UNCHANGED <<gen, tol, post, tols, runs, n>>
+(* with a tolerance list, generation g runs under the g-th entry of the list the USER supplied (Tr.tollist, ranks) *)
 TrEndGen   == /\ IsEvent("EndGen") /\ EndGeneration
               /\ IF Ev.next >= 0 THEN gen' > 0 /\ tol' = Ev.next ELSE gen' = 0
+              /\ (Ev.next >= 0 /\ Len(Tr.tollist) > gen) => Ev.next = Tr.tollist[gen + 1]
 TrFinal    == /\ IsEvent("Final") /\ gen = 0 /\ runs > 0
               /\ Len(Ev.parts) = n /\ Len(post) = n
               /\ \A i \in 1..n : /\ Ev.parts[i].cost = post[i].cost
